@@ -66,14 +66,17 @@ pub fn generate(verif_seed: u64, idx: u64, property: &str, thorough: bool) -> Sc
         scn.inputs.push(InputSpec::Val(XV::M(f2)));
     }
     scn.inputs.push(InputSpec::Json("{\"x\":3,\"y\":4,\"flag\":true,\"name\":\"bob\",\"lst\":[1,2],\"mp\":{\"a\":1},\"nil\":null}".into()));
+    // an input that cannot be serialised: the call fails as a whole ("earlier evaluations having failed")
+    scn.inputs.push(InputSpec::IntKeyMap(vec![(1, 2)]));
 
     // tasks
     let ntasks = 2 + rng.usize(4);
     for t in 0..ntasks {
         let entry = if rng.chance(1, 10) { Entry::ExprOnly(rng.usize(nrules)) } else { Entry::RuleSet };
-        let input = match rng.below(6) {
-            0 => 1,
-            1 => 2,
+        let input = match rng.below(12) {
+            0 | 1 => 1,
+            2 | 3 => 2,
+            4 => 3,
             _ => 0,
         };
         let start = match rng.below(4) {
@@ -129,18 +132,24 @@ pub fn generate(verif_seed: u64, idx: u64, property: &str, thorough: bool) -> Sc
         let max = if thorough { 200 } else { 48 };
         let n = 4 + rng.below(max - 4) as usize;
         let chained = rng.chance(2, 3);
+        let storm_kind = *rng.pick(&[0u64, 0, 0, 1, 2, 3, 4, 5, 5]);
         let first = scn.tasks.len();
         let input = rng.usize(2);
         for i in 0..n {
             let t = scn.tasks.len();
             let start = if chained && i > 0 { Start::AfterEnd(t - 1) } else if chained { Start::Now } else { Start::AtStep(rng.below(20) as u32) };
-            scn.tasks.push(TaskSpec { tag: 100 + i as u32, entry: Entry::RuleSet, input, start });
-            // make sure the first call suspends, then abandon at an early suspension point
-            scn.behaviour.push(Beh { task: t, call: 0, susp: vec![Susp::SelfWake, Susp::Deferred(1_000_000), Susp::SelfWake], panic: false });
-            if rng.chance(1, 8) {
-                scn.faults.push(Fault::Deadline { task: t, after: rng.below(3) * 1_000_000 });
-            } else {
-                scn.faults.push(Fault::CancelAfterPending { task: t, k: 1 + rng.below(3) as u32 });
+            // each storm member ends in one of the ways the statement lists: dropped midway
+            // (cancel / deadline / unwinding), failed as a whole, or completed
+            let kind = if storm_kind == 5 { rng.below(5) } else { storm_kind };
+            let inp = if kind == 3 { 3 } else { input };
+            scn.tasks.push(TaskSpec { tag: 100 + i as u32, entry: Entry::RuleSet, input: inp, start });
+            // make sure the first call suspends
+            let panic = kind == 2;
+            scn.behaviour.push(Beh { task: t, call: 0, susp: vec![Susp::SelfWake, Susp::Deferred(1_000_000), Susp::SelfWake], panic });
+            match kind {
+                0 => scn.faults.push(Fault::CancelAfterPending { task: t, k: 1 + rng.below(3) as u32 }),
+                1 => scn.faults.push(Fault::Deadline { task: t, after: rng.below(3) * 1_000_000 }),
+                _ => {} // 2: dies by unwinding; 3: unserialisable input; 4: runs to completion
             }
         }
         let last = scn.tasks.len() - 1;
@@ -317,6 +326,14 @@ pub fn judge(scn: &Scenario, out: &RunOut, c: &mut Counters) -> Verdict {
     }
     if any_abandoned {
         sig = combine(sig, 0xAB);
+    }
+    let n_failed_calls = out.ends.iter().filter(|e| matches!(e, TaskEnd::Finished(TaskResult::CallErr(_)))).count();
+    if n_failed_calls >= 4 {
+        c.bump("hit.four_or_more_evaluations_failed_as_a_whole_on_one_ruleset");
+    }
+    let n_panicked = out.ends.iter().filter(|e| matches!(e, TaskEnd::ProbePanicked)).count();
+    if n_panicked >= 4 {
+        c.bump("hit.four_or_more_evaluations_died_by_unwinding_on_one_ruleset");
     }
     let n_abandoned = out.ends.iter().filter(|e| matches!(e, TaskEnd::Cancelled { .. } | TaskEnd::DeadlineHit | TaskEnd::ProbePanicked)).count();
     if n_abandoned >= 16 {
